@@ -765,6 +765,8 @@ class LoginReactor(PacketReactor):
                 msg = json.loads(packet.json_data)['text']
             except (ValueError, TypeError, KeyError):
                 msg = packet.json_data
+            if not isinstance(msg, str):
+                msg = packet.json_data
             match = re.match(r"Outdated (client! Please use|server!"
                              r" I'm still on) (?P<ver>\S+)$", msg)
             if match:
